@@ -183,6 +183,8 @@ def run(c):
                     s["restart_acquires"], s["host_requests_restart"]))
         c.violation(what, sig, {"scenario": s["scenario"], "plan": s["plan"], "point": s["point"], "rows": again[0], "summary": again[1]})
     fold(c, t, out)
+    if not c.violations:
+        kk.cleanup_traces("c08_")
     c.exhaustive = False
     c.rule = ("cases = scenario (fresh latch, restart with key, rotation named/unnamed, unreadable local key) x host fault plan (none, "
               "status/acquire/attest failing in each way) x kill point of the baseline run (before every system call on the key "
